@@ -7,6 +7,10 @@ initialisation passes, save after init, save + time stamp at stop iff `start_ok`
 `get_state`/`_restore_state` of Input, Counter, FSM/Timer/InputExp, TimeDate/TimeSpan).
 The FSM part mirrors the code with `patches/C04-timer-state-after-fire.diff` applied.
 
+The stop is two steps: `stopBegin` (what `run_forever` does before the first `await` of the clean-up:
+save every persistent block and the stop time) and `stopEnd` (the clean-up is over, completed or
+interrupted by a cancellation of the simulation task); `stop` = both at one instant.
+
 All statements hold for every circuit (any number of blocks of any kind, any FSM tables that
 pass `_build_tables`), every initial storage content, every calendar predicate `env`, every
 history (`List Op`, no bound) and every instant.
@@ -60,7 +64,7 @@ theorem storage_refines_state (env : Time → Val → Option Bool) (c0 : Circ) (
     let c := run env (c0.start (env now) now .ok) ops
     (c.phase = .running ∨ c.phase = .aborted) →
     ∀ b ∈ c.blocks, b.persistent = true → b.sync = true → c.store.get? b.key = getState b.kind b.dyn :=
-  fun hg => (inv_run env ops (h0.inv (env now) now .ok)).synced hg
+  fun hg => (inv_run env ops (h0.inv (env now) now .ok)).synced (hg.elim Or.inl (fun h => Or.inr (Or.inl h)))
 
 /-- the single step behind it: a handled event of a block with `persistent and sync_state` ends with
     the block's new state in its slot (in any circuit state, reachable or not) -/
@@ -123,7 +127,7 @@ theorem frozen_after_handler_error (env : Time → Val → Option Bool) (c0 : Ci
 theorem no_write_on_failed_start (c0 : Circ) (h0 : Fresh c0) (cal : Val → Option Bool) (now t : Time) :
     ((c0.start cal now .abortedBefore).stop t).store = c0.store ∧
     ((c0.start cal now .startRaises).stop t).store = cleanUnused c0.store c0.blocks := by
-  constructor <;> simp [Circ.start, Circ.stop, h0.idle]
+  constructor <;> simp [Circ.start, Circ.stop, Circ.stopBegin, Circ.stopEnd, h0.idle]
 
 /-- what the removal of unused entries keeps: reserved entries and the entries of persistent blocks -/
 theorem cleanUnused_keeps (s : Storage) (bs : List Blk) (k : String)
@@ -282,6 +286,31 @@ theorem round_trip (k : Kind) (d : Dyn) (hd : DynOk k d) (hi : d.inited = true) 
     obtain ⟨e, d', h1, h2, h3, h4, h5, h6, h7, h8⟩ := fsm_round_trip c d hd hi cal now' hrun
     exact ⟨e, d', h1, h2, h3, h4, h5, h6, h7, h8⟩
 
+/-- the core of a restart: a slot that holds `get_state()` of a well-formed state `d`, not expired and its
+    timer not run out, makes the block of the new circuit come up as `d` -/
+theorem restart_restores_block (c2 : Circ) (h2 : Fresh c2) (cal : Val → Option Bool) (now' : Time)
+    (k : Kind) (d : Dyn) (hd : DynOk k d) (hin : d.inited = true)
+    (j : Nat) (b2 : Blk) (hb2 : c2.blocks[j]? = some b2) (hkind : b2.kind = k) (hp2 : b2.persistent = true)
+    (hstore : c2.store.get? b2.key = getState k d)
+    (hexp : expired b2.expiration (readTs c2.store) now' = false)
+    (hrun : ∀ t tev, d.timer = some (t, tev) → now' < t)
+    (hcal : ∀ i, k = .cal i → (cal d.value).isSome = true) :
+    ∃ b2', (c2.start cal now' .ok).blocks[j]? = some b2' ∧ b2'.key = b2.key ∧ Same k cal d b2'.dyn := by
+  obtain ⟨e, d', he, hre, hsame⟩ := round_trip k d hd hin cal now' hrun hcal
+  have hstore' : c2.store.get? b2.key = some e := by rw [hstore, he]
+  have hload : load b2 (cleanUnused c2.store c2.blocks) (readTs c2.store) cal now' = some d' := by
+    rw [load_cleanUnused b2 c2.blocks (List.mem_of_getElem? hb2), load_rule b2 _ _ cal now' e hp2 hstore',
+      hexp, hkind]
+    simpa using hre
+  have h1 : (pass1 c2.blocks (cleanUnused c2.store c2.blocks) (readTs c2.store) cal now')[j]?
+      = some { b2 with dyn := d' } := by
+    simp [pass1, List.getElem?_map, hb2, hload]
+  have h2' := pass2_inited cal now' _ h1 hsame.1
+  refine ⟨{ b2 with dyn := d' }, ?_, rfl, hsame⟩
+  unfold Circ.start
+  simp only [h2.idle, bne_self_eq_false, Bool.false_eq_true, if_false]
+  split <;> exact h2'
+
 /-- `restart_from_any_snapshot`: take ANY history of a circuit and the storage as it is at that point
     (a crash point: the circuit is running or an error is pending).  A new circuit `c2` over that
     storage — any blocks, any settings — is started at any later instant `now'`.  Every block `b2`
@@ -299,24 +328,13 @@ theorem restart_from_any_snapshot (env : Time → Val → Option Bool) (c0 : Cir
       (∀ t tev, b.dyn.timer = some (t, tev) → now' < t) →
       (∀ i, b.kind = .cal i → (cal b.dyn.value).isSome = true) →
       ∃ b2', (c2.start cal now' .ok).blocks[j]? = some b2' ∧ b2'.key = b.key ∧ Same b.kind cal b.dyn b2'.dyn := by
-  intro c hg hst b hb hp hsy j b2 hb2 hk hkind hp2 hexp hrun hcal
+  intro c hg0 hst b hb hp hsy j b2 hb2 hk hkind hp2 hexp hrun hcal
+  have hg : Good c := hg0.elim Or.inl (fun h => Or.inr (Or.inl h))
   have hi : Inv c := inv_run env ops (h0.inv (env now) now .ok)
   have hdyn := hi.ok hg b hb (Or.inr hp)
-  obtain ⟨e, d', he, hre, hsame⟩ := round_trip b.kind b.dyn hdyn.1 hdyn.2 cal now' hrun hcal
-  have hstore : c2.store.get? b2.key = some e := by
-    rw [hst, hk, hi.synced hg b hb hp hsy, he]
-  have hload : load b2 (cleanUnused c2.store c2.blocks) (readTs c2.store) cal now' = some d' := by
-    rw [load_cleanUnused b2 c2.blocks (List.mem_of_getElem? hb2), load_rule b2 _ _ cal now' e hp2 hstore,
-      hst, hexp, hkind]
-    simpa using hre
-  have h1 : (pass1 c2.blocks (cleanUnused c2.store c2.blocks) (readTs c2.store) cal now')[j]?
-      = some { b2 with dyn := d' } := by
-    simp [pass1, List.getElem?_map, hb2, hload]
-  have h2' := pass2_inited cal now' _ h1 hsame.1
-  refine ⟨{ b2 with dyn := d' }, ?_, hk, hsame⟩
-  unfold Circ.start
-  simp only [h2.idle, bne_self_eq_false, Bool.false_eq_true, if_false]
-  split <;> exact h2'
+  obtain ⟨b2', h1, h2', h3⟩ := restart_restores_block c2 h2 cal now' b.kind b.dyn hdyn.1 hdyn.2 j b2 hb2 hkind hp2
+    (by rw [hst, hk]; exact hi.synced hg b hb hp hsy) (by rw [hst]; exact hexp) hrun hcal
+  exact ⟨b2', h1, h2'.trans hk, h3⟩
 
 /-- …and a state that is expired, or whose timer ran out, is discarded in favour of the normal
     initialisation (stated for a second start that succeeds) -/
@@ -350,6 +368,173 @@ theorem expired_state_discarded (c2 : Circ) (h2 : Fresh c2) (cal : Val → Optio
     simp only [Bool.and_eq_true] at hc
     exact pass2_fresh cal now' _ hc.1 h1 hun
   · next hc => simp [hc] at hrun
+
+/-! ### any stop: the states and the time stamp of THIS stop are in the storage before the clean-up starts -/
+
+/-- `stop_begin_saves_all_with_timestamp`: for every history of a circuit whose start went through, when the
+    stop begins at `t` — before the first `await` of the clean-up — the storage holds the state of EVERY
+    persistent block and the stop time `t` (the instant the stop began, not the end of the clean-up) -/
+theorem stop_begin_saves_all_with_timestamp (env : Time → Val → Option Bool) (c0 : Circ) (h0 : Fresh c0)
+    (now : Time) (ops : List Op) (t : Time) :
+    let c := run env (c0.start (env now) now .ok) ops
+    (c.stopBegin t).store.get? stopKey = some (.ts t) ∧
+    (∀ b ∈ c.blocks, b.persistent = true → (c.stopBegin t).store.get? b.key = getState b.kind b.dyn) ∧
+    (c.stopBegin t).blocks = c.blocks := by
+  intro c
+  have hi : Inv c := inv_run env ops (h0.inv (env now) now .ok)
+  have hl : Live c := live_run env ops (live_start c0 (env now) now h0.idle)
+  rw [stopBegin_store c hl t]
+  refine ⟨Storage.get?_set_same .., ?_, ?_⟩
+  · intro b hb hp
+    have hne : b.key ≠ stopKey := fun h => by
+      have := hi.plain _ (List.mem_map_of_mem hb)
+      rw [h, reserved_stopKey] at this; simp at this
+    rw [Storage.get?_set_ne _ _ hne]
+    exact saveAll_mem _ hi.nodup _ hb hp
+  · unfold Circ.stopBegin; split <;> rfl
+
+/-- `stamp_of_this_stop_survives_cleanup`: whatever happens during the clean-up (events, timers firing, time
+    passing — `later`) and however it ends (`complete` or interrupted: the simulation task cancelled while
+    it awaits a `stop_async`), the storage holds the time stamp of THIS stop: the instant `t` it began.
+    Hence the next start reads `persistent_ts = t` in both cases. -/
+theorem stamp_of_this_stop_survives_cleanup (env : Time → Val → Option Bool) (c0 : Circ) (h0 : Fresh c0)
+    (now : Time) (ops : List Op) (t : Time) (later : List Op) (t' : Time) (complete : Bool) :
+    let c := run env (c0.start (env now) now .ok) ops
+    let s := ((run env (c.stopBegin t) later).stopEnd t' complete).store
+    s.get? stopKey = some (.ts t) ∧ readTs s = some t := by
+  intro c s
+  have hi : Inv (c.stopBegin t) := inv_stopBegin (inv_run env ops (h0.inv (env now) now .ok)) t
+  have hst := (stop_begin_saves_all_with_timestamp env c0 h0 now ops t).1
+  have hf := frozen_run env later (frozen_stamp hi.plain)
+  have : s.get? stopKey = some (.ts t) := by
+    show ((run env (c.stopBegin t) later).stopEnd t' complete).store.get? stopKey = _
+    rw [stopEnd_store, hf.2]; exact hst
+  exact ⟨this, by simp [readTs, this]⟩
+
+/-- the end of the clean-up writes nothing: an interrupted stop leaves exactly the storage of a completed one -/
+theorem interrupted_stop_leaves_same_storage (c : Circ) (t1 t2 : Time) :
+    (c.stopEnd t1 false).store = (c.stopEnd t2 true).store := by
+  rw [stopEnd_store, stopEnd_store]
+
+/-- so the next start's expiration decision after an interrupted stop is the decision after an
+    uninterrupted one: the age is measured from the instant this stop began -/
+theorem expiration_decision_after_any_stop (env : Time → Val → Option Bool) (c0 : Circ) (h0 : Fresh c0)
+    (now : Time) (ops : List Op) (t : Time) (later : List Op) (t' : Time) (complete : Bool)
+    (x : Option Int) (now' : Time) :
+    let c := run env (c0.start (env now) now .ok) ops
+    expired x (readTs ((run env (c.stopBegin t) later).stopEnd t' complete).store) now' = expired x (some t) now' := by
+  intro c
+  rw [(stamp_of_this_stop_survives_cleanup env c0 h0 now ops t later t' complete).2]
+
+/-- the new stamp is not older than the one found at the start (when that one was not in the future and
+    the clock did not go back): time stamps of consecutive stops never decrease -/
+theorem stamp_monotone (env : Time → Val → Option Bool) (c0 : Circ) (h0 : Fresh c0) (now : Time)
+    (ops : List Op) (t t0 : Time)
+    (hold : readTs c0.store = some t0) (hpast : t0 ≤ now)
+    (hclock : (run env (c0.start (env now) now .ok) ops).now ≤ t) :
+    (run env (c0.start (env now) now .ok) ops).ts = some t0 ∧ t0 ≤ t := by
+  have h1 := start_now c0 (env now) now .ok h0.idle
+  have h2 := now_run env ops (c0.start (env now) now .ok)
+  refine ⟨?_, Nat.le_trans hpast (Nat.le_trans (by rw [h1.1] at h2; exact h2) hclock)⟩
+  have hts : ∀ (ops : List Op) (c : Circ), (run env c ops).ts = c.ts := by
+    intro ops
+    induction ops with
+    | nil => intro c; rfl
+    | cons op r ih =>
+      intro c
+      show (run env (step env c op) r).ts = c.ts
+      rw [ih]
+      cases op with
+      | ev i ev =>
+        simp only [step]
+        split
+        · next c' r' h => exact event_ts h
+        · rfl
+      | fire i =>
+        simp only [step]
+        split
+        · split
+          · split
+            · next c' r' h =>
+              unfold Circ.fire at h
+              split at h
+              · simp at h
+              · split at h
+                · simp at h
+                · split at h
+                  · simp at h
+                  · split at h
+                    · simp at h
+                    · exact (event_ts h).trans rfl
+            · rfl
+          · rfl
+        · rfl
+      | adv t =>
+        simp only [step]
+        cases h : c.advance t with
+        | none => rfl
+        | some c' =>
+          unfold Circ.advance at h
+          split at h
+          · simp at h
+          · split at h
+            · split at h
+              · simp at h
+              · simp only [Option.some.injEq] at h; rw [← h]; rfl
+            · simp only [Option.some.injEq] at h; rw [← h]; rfl
+  rw [hts, h1.2]; simpa using hold
+
+/-- sync_state blocks go on being saved during the clean-up: in every state of it the slot of a block with
+    `persistent and sync_state` holds its current state -/
+theorem storage_refines_state_during_cleanup (env : Time → Val → Option Bool) (c0 : Circ) (h0 : Fresh c0)
+    (now : Time) (ops : List Op) (t : Time) (later : List Op) :
+    let c := run env ((run env (c0.start (env now) now .ok) ops).stopBegin t) later
+    c.phase = .stopping →
+    ∀ b ∈ c.blocks, b.persistent = true → b.sync = true → c.store.get? b.key = getState b.kind b.dyn :=
+  fun hg => (inv_run env later (inv_stopBegin (inv_run env ops (h0.inv (env now) now .ok)) t)).synced
+    (Or.inr (Or.inr hg))
+
+/-- …and a persistent block WITHOUT sync_state keeps, through the whole clean-up and however it ends, exactly
+    the state that was saved when the stop began -/
+theorem unsynced_block_keeps_stop_state (env : Time → Val → Option Bool) (c0 : Circ) (h0 : Fresh c0)
+    (now : Time) (ops : List Op) (t : Time) (later : List Op) (t' : Time) (complete : Bool) :
+    let c := run env (c0.start (env now) now .ok) ops
+    ∀ b ∈ c.blocks, b.persistent = true → b.sync = false →
+      ((run env (c.stopBegin t) later).stopEnd t' complete).store.get? b.key = getState b.kind b.dyn := by
+  intro c b hb hp hsy
+  have hi : Inv c := inv_run env ops (h0.inv (env now) now .ok)
+  obtain ⟨_, hsaved, hblocks⟩ := stop_begin_saves_all_with_timestamp env c0 h0 now ops t
+  have hq : Quiet b.key (getState b.kind b.dyn) (c.stopBegin t) := by
+    refine ⟨?_, hsaved b hb hp⟩
+    intro x hx hk
+    rw [hblocks] at hx
+    have : x = b := mem_key_inj hi.nodup hx hb hk
+    rw [this, hsy]; simp
+  rw [stopEnd_store]
+  exact (quiet_run env later hq).2
+
+/-- `restart_after_any_stop`: the storage left by a stop whose clean-up was interrupted (or not), with any
+    events in between, restores — subject to expiration measured from the instant `t` the stop began —
+    every `persistent and sync_state` block in the state it had when the clean-up ended -/
+theorem restart_after_any_stop (env : Time → Val → Option Bool) (c0 : Circ) (h0 : Fresh c0) (now : Time)
+    (ops : List Op) (t : Time) (later : List Op) (t' : Time) (complete : Bool)
+    (c2 : Circ) (h2 : Fresh c2) (cal : Val → Option Bool) (now' : Time) :
+    let c := run env ((run env (c0.start (env now) now .ok) ops).stopBegin t) later
+    c.phase = .stopping → c2.store = (c.stopEnd t' complete).store →
+    ∀ b ∈ c.blocks, b.persistent = true → b.sync = true →
+    ∀ (j : Nat) (b2 : Blk), c2.blocks[j]? = some b2 → b2.key = b.key → b2.kind = b.kind → b2.persistent = true →
+      expired b2.expiration (some t) now' = false →
+      (∀ t tev, b.dyn.timer = some (t, tev) → now' < t) →
+      (∀ i, b.kind = .cal i → (cal b.dyn.value).isSome = true) →
+      ∃ b2', (c2.start cal now' .ok).blocks[j]? = some b2' ∧ b2'.key = b.key ∧ Same b.kind cal b.dyn b2'.dyn := by
+  intro c hph hst b hb hp hsy j b2 hb2 hk hkind hp2 hexp hrun hcal
+  have hg : Good c := Or.inr (Or.inr hph)
+  have hi : Inv c := inv_run env later (inv_stopBegin (inv_run env ops (h0.inv (env now) now .ok)) t)
+  have hdyn := hi.ok hg b hb (Or.inr hp)
+  have hts := (stamp_of_this_stop_survives_cleanup env c0 h0 now ops t later t' complete).2
+  obtain ⟨b2', h1, h2', h3⟩ := restart_restores_block c2 h2 cal now' b.kind b.dyn hdyn.1 hdyn.2 j b2 hb2 hkind hp2
+    (by rw [hst, stopEnd_store, hk]; exact hi.synced hg b hb hp hsy) (by rw [hst, hts]; exact hexp) hrun hcal
+  exact ⟨b2', h1, h2'.trans hk, h3⟩
 
 /-! ### unused entries are removed, reserved ones kept -/
 
